@@ -66,7 +66,7 @@ var converters = []struct {
 }
 
 func (*prop) Cases(seed int64, tier string) []core.Case {
-	L, nshard, nrand, randN := 4, 16, 8, 3000
+	L, nshard, nrand, randN := 4, 16, 16, 6000
 	if tier == "thorough" {
 		L, nshard, nrand, randN = 6, 128, 32, 30000
 	}
